@@ -395,6 +395,9 @@ func TestFindBinary(t *testing.T) {
 		c.Start = rapid.IntRange(0, d-1).Draw(rt, "start")
 		c.Stop = rapid.IntRange(-1, d-1).Draw(rt, "stop")
 		c.ViaSymlink = c.Stop >= 0 && c.Stop <= c.Start && rapid.Bool().Draw(rt, "via_symlink")
+		if !c.ViaSymlink && rapid.IntRange(0, 3).Draw(rt, "stale_pwd") == 0 {
+			c.StalePWD = 1 + rapid.IntRange(0, d-1).Draw(rt, "pwd_level")
+		}
 		return c
 	}, func(c FindCase) *rp.Fail {
 		s.Class("space_binary")
@@ -432,7 +435,11 @@ func execFindBinary(s *ev.Shard, b *sandbox.Box, c FindCase) *rp.Fail {
 		stop, cwd = link, filepath.Join(link, relToStop)
 		_ = os.Lchown(link, 65534, 65534)
 	}
-	res := b.Run(cwd, []string{"HOME=" + stop, "PWD=" + cwd}, 20*time.Second, "--show")
+	pwd := cwd
+	if c.StalePWD > 0 {
+		pwd = dirs[c.StalePWD-1]
+	}
+	res := b.Run(cwd, []string{"HOME=" + stop, "PWD=" + pwd}, 20*time.Second, "--show")
 	size := len(c.Cfg)*3 + c.Start
 	desc := fmt.Sprintf("chain %v children %v: `spok --show` with cwd = level %d and HOME = %s", c.Cfg, c.Child, c.Start, rel(base, stop))
 	if res.TimedOut {
@@ -473,7 +480,10 @@ func execFindBinary(s *ev.Shard, b *sandbox.Box, c FindCase) *rp.Fail {
 		}
 	}
 	if s != nil {
-		s.NonTrivial("bin" + fmt.Sprint(c.Cfg, c.Child, c.Start, c.Stop, c.ViaSymlink))
+		s.NonTrivial("bin" + fmt.Sprint(c.Cfg, c.Child, c.Start, c.Stop, c.ViaSymlink, c.StalePWD))
+		if c.StalePWD > 0 && c.StalePWD-1 != c.Start {
+			s.Class("stale_PWD")
+		}
 		if c.ViaSymlink {
 			s.Class("home_through_symlink")
 		}
